@@ -1087,7 +1087,7 @@ int main(int argc, char** argv)
       });
    }
    bool thorough = args.tier == "thorough";
-   Report rep(args, "fault_enumeration", thorough ? 2700 : 420);
+   Report rep(args, "fault_enumeration", thorough ? 3300 : 900);
    RunOpts o = rep.opts();
    o.perturb = {85};          // the sanitizer allocator fills fresh blocks itself; the stack is filled by the harness (two fills per case)
    o.watchdog_s = 40;
@@ -1130,20 +1130,22 @@ int main(int argc, char** argv)
          return c;
       };
       fams.push_back(f);
-      // one level deeper from the two contexts where a sequence is not cut short by the skeleton: empty file, start of the constraints
+      // one level deeper: quick = all sequences of length klp+1 at the start of the constraints section; thorough = all sequences
+      // of length klp+1 over a 20-letter sub-alphabet at the start of the file and at the start of the constraints section
+      static const std::vector<int> R20 = {0, 1, 2, 3, 5, 6, 7, 8, 9, 10, 12, 13, 15, 16, 18, 20, 22, 23, 24, 25};
       int k2 = klp + 1;
-      uint64_t A = T_LP.size(), S2 = ipow(A, k2);
+      uint64_t A = T_LP.size(), A2 = thorough ? R20.size() : A, S2 = ipow(A2, k2), nc2 = thorough ? 2 : 1;
       Family g;
-      g.name = "LP tokens k=" + std::to_string(k2) + " x {start, constraints} x 2 modes";
-      g.N = S2 * 2 * 2;
+      g.name = "LP tokens k=" + std::to_string(k2) + (thorough ? " (20-letter alphabet) x {start, constraints} x 2 modes" : " x {constraints} x 2 modes");
+      g.N = S2 * nc2 * 2;
       g.gen = [ = ](uint64_t idx)
       {
          Case c;
          c.fmt = LP; c.cpu = TOKCPU;
          c.mode = idx % 2; idx /= 2;
-         int cx = idx % 2 ? 2 : 0; idx /= 2;
+         int cx = (nc2 == 1 || idx % 2) ? 2 : 0; idx /= nc2;
          std::vector<int> t(k2);
-         for(int i = 0; i < k2; ++i) { t[i] = int(idx % A); idx /= A; }
+         for(int i = 0; i < k2; ++i) { t[i] = int(idx % A2); idx /= A2; if(thorough) t[i] = R20[t[i]]; }
          c.data = render_lp(LPCTX[cx], cx == 2, t);
          return c;
       };
@@ -1206,7 +1208,7 @@ int main(int argc, char** argv)
       fams.push_back(d);
       // a reduced alphabet one and two levels deeper inside COLUMNS and BOUNDS (five fields = one full data line)
       static const std::vector<int> R = {15, 16, 17, 18, 19, 22, 12, 13, 24, 28, 29, 31};   // x c1 obj w 1 1e999999999 UP FR b*300 $ \n col14$
-      int k5 = thorough ? 5 : 4;
+      int k5 = thorough ? 4 : 3;
       uint64_t S5 = nseq(R.size(), k5);
       Family e;
       e.name = "MPS fields k<=" + std::to_string(k5) + " (12-letter alphabet) x {COLUMNS, RHS, RANGES, BOUNDS} x 2 modes";
@@ -1226,33 +1228,37 @@ int main(int argc, char** argv)
    }
    {
       // basis files: field sequences and whole-line sequences, with and without name sets, before and after a solve
-      uint64_t A = T_BAS.size(), S = nseq(A, kbas), nctx = BASCTX.size() * 2;
-      Family f;
-      f.name = "BAS fields k<=" + std::to_string(kbas) + " x 6 contexts x names x pre-state x 2 modes";
-      f.N = S * nctx * 2 * 2 * 2;
-      f.gen = [ = ](uint64_t idx)
+      uint64_t A = T_BAS.size(), nctx = BASCTX.size() * 2;
+      for(int pre = 0; pre < 2; ++pre)
       {
-         Case c;
-         c.fmt = BAS; c.cpu = 0.5;
-         c.mode = idx % 2; idx /= 2;
-         c.names = idx % 2; idx /= 2;
-         c.pre = idx % 2; idx /= 2;
-         uint64_t cx = idx % nctx; idx /= nctx;
-         c.data = render_fields(T_BAS, BASCTX[cx / 2], cx % 2 == 0, seq_at(idx, A, kbas));
-         return c;
-      };
-      fams.push_back(f);
+         int kk = pre ? 2 : kbas;
+         uint64_t S = nseq(A, kk);
+         Family f;
+         f.name = "BAS fields k<=" + std::to_string(kk) + " x 6 contexts x {name sets, default names} x 2 modes, LP " + (pre ? "solved before" : "loaded");
+         f.N = S * nctx * 2 * 2;
+         f.gen = [ = ](uint64_t idx)
+         {
+            Case c;
+            c.fmt = BAS; c.cpu = 0.5; c.pre = pre;
+            c.mode = idx % 2; idx /= 2;
+            c.names = idx % 2; idx /= 2;
+            uint64_t cx = idx % nctx; idx /= nctx;
+            c.data = render_fields(T_BAS, BASCTX[cx / 2], cx % 2 == 0, seq_at(idx, A, kk));
+            return c;
+         };
+         fams.push_back(f);
+      }
       uint64_t NL = BAS_LINES.size();
       Family g;
-      g.name = "BAS files of <=2 lines over 120 lines x names x pre-state x 2 modes";
-      g.N = nseq(NL, 2) * 2 * 2 * 2;
+      uint64_t combos = thorough ? 4 : 1;
+      g.name = std::string("BAS files of <=2 lines over 120 lines x 2 modes") + (thorough ? " x {name sets, default names} x {loaded, solved}" : "");
+      g.N = nseq(NL, 2) * 2 * combos;
       g.gen = [ = ](uint64_t idx)
       {
          Case c;
          c.fmt = BAS; c.cpu = 0.5;
          c.mode = idx % 2; idx /= 2;
-         c.names = idx % 2; idx /= 2;
-         c.pre = idx % 2; idx /= 2;
+         if(combos == 4) { c.names = idx % 2; idx /= 2; c.pre = idx % 2; idx /= 2; }
          c.data = "NAME          V\n";
          for(int l : seq_at(idx, NL, 2)) c.data += BAS_LINES[l];
          c.data += "ENDATA\n";
@@ -1260,7 +1266,7 @@ int main(int argc, char** argv)
       };
       fams.push_back(g);
       uint64_t NS = BAS_LINES_SMALL.size();
-      int kl = thorough ? 4 : 3;
+      int kl = thorough ? 3 : 2;
       Family h2;
       h2.name = "BAS files of <=" + std::to_string(kl) + " lines over 24 well-formed lines x pre-state x 2 modes";
       h2.N = nseq(NS, kl) * 2 * 2;
